@@ -365,9 +365,11 @@ func c12X2(l *core.Ledger, r *rt) {
 				} else {
 					l.Bad("C12-X2", k, pos, "acquires "+op.lock+" whose holders are not known to be bounded")
 				}
+			case "deliver":
+				l.OK("C12-X2", k, pos, "delivery to a streaming router: waits only while the receiving call is still running; that call takes replies in a loop and closes the router's done channel on every exit (C09-W3, C11-K5)")
 			case "send":
 				if isResponseChan(op.chanT) {
-					l.OK("C12-X2", k, pos, "reply send (capacity rule C05-M6 / known finding C09-W3)")
+					l.OK("C12-X2", k, pos, "reply send (capacity rule C05-M6 / C09-W3)")
 				} else {
 					l.Bad("C12-X2", k, pos, "bare channel send in a library goroutine")
 				}
